@@ -192,6 +192,24 @@ package method_evaluator
 //@ func ti/eval/method_evaluator.calculateExecutionType
 //@   safe assert
 //@   inline 2 1
+//@   # C09: working out what a call returns never writes into the type of the receiver (a variable
+//@   # keeps the type of its most recent assignment): every variant is appended to a fresh type
+//@   callsite[C09] AppendVariant a_t != m.evaluatedObjectT
+//@   callsite[C09] AppendArrayVariant a_t != m.evaluatedObjectT
+//@   callsite[C09] AppendHashVariant a_t != m.evaluatedObjectT
+//@   witness site:call.0#0 "a = [1, 2]\nx = a.last\ndbtp a\n" expect "Array<Integer NilClass>"
+//@   # C09: `Self` resolves to the receiver's type
+//@   ensures[C09] old(methodT.method) != "new" && old(methodT.tType) == base.SELF ==> result == m.evaluatedObjectT
+//@   # C09: `Argument` resolves to the argument itself (one argument), to nil (none), to a fresh array (several)
+//@   ensures[C09] old(methodT.method) != "new" && old(methodT.tType) == base.ARGUMENT && len(args) == 1 ==> result == args[0]
+//@   ensures[C09] old(methodT.method) != "new" && old(methodT.tType) == base.ARGUMENT && len(args) == 0 ==> fresh(result) && result.tType == base.NIL
+//@   ensures[C09] old(methodT.method) != "new" && old(methodT.tType) == base.ARGUMENT && len(args) > 1 ==> fresh(result) && result.tType == base.ARRAY
+//@   loop 1 invariant[C09] fresh(arrayT) && arrayT.tType == base.ARRAY
+//@   loop 2 invariant[C09] fresh(arrayT) && arrayT.tType == base.ARRAY
+//@   loop 4 invariant[C09] fresh(arrayT) && arrayT.tType == base.ARRAY
+//@   loop 5 invariant[C09] fresh(arrayT) && arrayT.tType == base.ARRAY
+//@   # C09: `SelfArray`, `KeyValueArray` and an array return build a fresh array, never the receiver
+//@   ensures[C09] old(methodT.method) != "new" && (old(methodT.tType) == base.SELF_ARRAY || old(methodT.tType) == base.KEYVALUE_ARRAY || old(methodT.tType) == base.ARRAY || old(methodT.tType) == base.BLOCK_RESULT_ARRAY) ==> fresh(result) && result.tType == base.ARRAY
 //@   witness assert#0 "x = [1,2].collect\n"
 //@   witness assert#1 "x = [1,2].collect\n"
 //@ func ti/eval/method_evaluator.conditioningMethodReturn
